@@ -21,7 +21,7 @@ def run(ctx):
     # unbounded: the spread rules for ALL integer offsets (reflect = even triangle wave of period 2 within [0,1], repeat of
     # period 1, identity inside [0,1], pad clamps, none has no colour outside) - TLAPS, 34 obligations
     ctx.tlapm_must_prove("GradientProofs")
-    p, _ = ctx.run_harness(["drive-c15", "-out", ctx.tmp, "-shards", "16", "-n", str(40 if quick else 4000)], timeout=3000)
+    p, _ = ctx.run_harness(["drive-c15", "-out", ctx.tmp, "-shards", "16" if quick else "48", "-n", str(40 if quick else 4000)], timeout=3000)
     summ = deccheck.summary_of(p)
     files = sorted(glob.glob(os.path.join(ctx.tmp, "c15.*.ndjson")))
     events, diags, runs = vlib.tv_shards(ctx, "TV_Gradient", "TV_Gradient", files)
